@@ -126,6 +126,7 @@ def jobs_pipe(prop):
         if prop == 'C04':
             jobs += props_pipe.pending_cfg_jobs(tier)
         jobs += cross_jobs(prop, tier, seed)
+        jobs += props_pipe.transformed_jobs(prop, tier, seed)
         return jobs
     return f
 
@@ -239,7 +240,11 @@ PROPS = {
                 explanation='Histories inside one symbolic path: clean(...clean(x, c1)..., cn) against clean(x, cn) for non-decreasing times (2000 / 2005 / 2015 '
                             'against expiries 2001 / 2010 / 2999) and growing target sets, compared modulo blanks by a DP alignment decided by z3; and '
                             'clean(clean(x, c), c) == clean(x, c) byte for byte. The second run works on the symbolic output of the first.'),
-    'C18': dict(jobs=props_pipe.c18_jobs, tv=('front', 'pipe', 'list'), assumptions=PIPE_ASSUME + [
+    'C18': dict(jobs=lambda tier, seed: props_pipe.c18_jobs(tier, seed) + [j for j in props_cli.c20_jobs(tier, seed) if j['label'].startswith('spelling:')],
+                cli=True, covers_optional={t: ('output-is-input-file', 'output-to-file', 'list-mode', 'list-json-mode', 'input-from-file', 'input-from-stdin', 'something-removed',
+                                               'targets-from-file', 'targets-from-flags', 'no-target-option', 'clean-mode', 'output-to-stdout') for t in ('quick', 'thorough')},
+                tv=('front', 'pipe', 'list'), assumptions=PIPE_ASSUME + [
+                    'the command-line clause (a spelling given as options reaches the library unchanged) is decided by the C20 harness on the spelling-related option sets, with the stubs listed under C20',
                     'no byte of a delimiter occurs in the text, the tag names or the attribute texts, and delimiters contain no line break (the statement\'s side condition, as a solver constraint)',
                     'the start delimiter does not begin with a blank or tab (such a tag is indistinguishable from indentation for the dedent; outside the claim)'],
                 explanation='Relational: every template is rendered with < > / t m and with a second spelling - pool pairs with natural-language tag names, and fully '
